@@ -902,6 +902,19 @@ func (g *FuncGen) execPanic(x *ssa.Panic) {
 }
 
 func (g *FuncGen) execSend(x *ssa.Send) {
+	// "cut before send: label: expr": an assertion at every channel send of the function
+	if g.c != nil {
+		for _, cut := range g.c.Cuts {
+			if cut.Callee != "send" {
+				continue
+			}
+			cx := g.newSpecCtx(g.st, g.entry)
+			cx.locals = true
+			cx.at = g.cur
+			g.oblig("cut", "before-send:"+cut.C.Name, cx.boolTerm(cut.C.E), x.Pos(), cut.C.Props, cut.C.Src)
+			g.assume(cx.assumeTerm(cut.C.E))
+		}
+	}
 	g.noteSend(x.Chan)
 }
 
